@@ -150,6 +150,39 @@ def main():
         return ls, "the owner's switch back to USE recorded as leaving NO"
     allok &= experiment("StepTrace: page not re-armed after the drain", slines, no_rearm, {"RearmAfterDrain", "StepContinuity", "UseDelayedShape"}, "StepTrace", "StepTrace.cfg", "steps_")
 
+    # ---------------------------------------------------------------- SegTrace (slice tables)
+    exe = vlib.build_harness("drv_api", "drv_api.c", cfg="rel")
+    sraw = os.path.join(OD, "seg_raw.ndjson")
+    rc, o = vlib.sh([exe, "--out", sraw, "--seed", "4", "--ops", "1200", "--maxlive", "120", "--profile", "c01", "--segs", "1"], timeout=300)
+    seglines = [l for l in open(sraw) if l.startswith('{"e":"seg"')]
+    sb = os.path.join(OD, "segs_base.ndjson"); open(sb, "w").writelines(seglines)
+    st, g = tv(sb, "SegTrace", "SegTrace.cfg")
+    print("%s  %-46s %s (%d tables)" % ("OK  " if st == "accepted" else "FAIL", "SegTrace: dumped slice tables (unchanged tree)", st, len(seglines)))
+    allok &= (st == "accepted")
+    RESULTS.append({"experiment": "SegTrace baseline", "tlc": st, "tables": len(seglines)})
+
+    def bad_backoffset(ls):
+        for i, l in enumerate(ls):
+            ev = json.loads(l)
+            for k in range(ev["info"], ev["entries"]):
+                if ev["use"][k] == 1 and ev["cnt"][k] >= 3:
+                    ev["off"][k + 1] = 0
+                    ls[i] = dump(ev)
+                    return ls, "back offset of the second entry of a page of %d slices recorded as 0" % ev["cnt"][k]
+        return None
+    allok &= experiment("SegTrace: interior entry does not point back", seglines, bad_backoffset, {"Seg.UsedSpanBackOffsets"}, "SegTrace", "SegTrace.cfg", "segs_")
+
+    def purge_over_used(ls):
+        for i, l in enumerate(ls):
+            ev = json.loads(l)
+            for k in range(ev["info"], ev["entries"]):
+                if ev["use"][k] == 1 and ev["cnt"][k] >= 1 and ev["kind"] == "normal":
+                    ev["purge"] = ev["purge"] + [[k, k]]
+                    ls[i] = dump(ev)
+                    return ls, "first slice of a page in use recorded as scheduled for purging"
+        return None
+    allok &= experiment("SegTrace: purge mask over a page in use", seglines, purge_over_used, {"Seg.PurgeAvoidsUsed", "Seg.PurgeInsideCommit"}, "SegTrace", "SegTrace.cfg", "segs_")
+
     # ---------------------------------------------------------------- BitmapTrace
     exe = vlib.build_harness("drv_bitmap", "drv_bitmap.c", cfg="rel", shim=True, hooks=True)
     bm = os.path.join(OD, "bitmap_base.ndjson")
